@@ -656,6 +656,9 @@ def inline_locals(fn_node: ast.AST, expr: ast.AST, depth: int = 3) -> str:
         if isinstance(n, ast.Assign) and len(n.targets) == 1 and isinstance(
                 n.targets[0], ast.Name):
             defs.setdefault(n.targets[0].id, []).append(n.value)
+        elif isinstance(n, ast.AnnAssign) and n.value is not None \
+                and isinstance(n.target, ast.Name):
+            defs.setdefault(n.target.id, []).append(n.value)
         elif isinstance(n, (ast.AugAssign, ast.AnnAssign, ast.For,
                             ast.NamedExpr)):
             t = n.target
